@@ -37,14 +37,15 @@ for the foreign state — `catable_block_faithful` —, `copy_len() ≥ 2` holds
 chain, and whose `prev_byte`s agree with the decoder's only because of item 4; literal context modelling is what item 4
 is for), quality 10/11 (Zopfli) and 0/1 (fragment compressors: no distance
 cache, no dictionary — not covered by this model), the chain's own `BlockOK` (ring buffer holds the text), one
-`CreateBackwardReferences` call per meta-block, NPOSTFIX = NDIRECT = 0, and re-reading a compressed meta-block at a
-different BIT offset (the concatenator shifts bits; the reader's alignment argument only matters for stored blocks).
+`CreateBackwardReferences` call per meta-block, NPOSTFIX = NDIRECT = 0, and the WRITER half of re-reading a compressed
+meta-block at a different BIT offset (reader half: `compressed_metablock_offset_independent`).
 -/
 import BV.Lemmas.CatableReplay
 import BV.Lemmas.CbrOpen
 import BV.Lemmas.ReplayFaithful
 import BV.Lemmas.CbrLen2
 import BV.Lemmas.CtxPrefix
+import BV.Lemmas.ReadShift
 import BV.Props.C01MetaBlockFull
 import BV.Model.Catable
 import BV.Props.C01Chain
@@ -431,6 +432,24 @@ theorem catable_full_bits_position_independent {H : Type} (ops : HasherOps H) (p
     simpa using hrep.symm
   subst hout
   exact ⟨ring'', hrd⟩
+
+/-! ## the concatenator's bit shift -/
+
+/-- **`compressed_metablock_offset_independent`** — READER half of "the concatenator may shift a member's compressed
+meta-blocks to any bit offset": bits that begin with the compressed, non-last §9.2 header of a meta-block of `len` bytes
+(`headerBits false len`, what `StoreCompressedMetaBlockHeader` writes first) are read at every bit offset `off2` to the
+same decoder state, consuming the same number of bits, as at the offset `off` they were written for.  The WRITER half —
+that the bits `BrotliStoreMetaBlockFast / Trivial / BrotliStoreMetaBlock` emit begin with that header and do not depend
+on what was written before them — holds by construction of the writer models (first statement; every later step
+appends) but is internal to the proofs of C01MetaBlock (`fast_core`, `trivial_core`, `full_core` choose such bits) and
+not exported; with it, the `catable_*_bits_position_independent` theorems hold at every bit offset. -/
+theorem compressed_metablock_offset_independent (w' : WordOracle) (window' : Nat) (large : Bool) (len : Nat)
+    (h1 : 1 ≤ len) (h2 : len ≤ 2 ^ 24) (tail : List Bool) (off off2 : Nat) (s s' : RdSt) (rest : List Bool) (n : Nat)
+    (h : readMetaBlockFull w' window' large off s (BV.MetaBlock.headerBits false len ++ tail) = some (s', false, off + n, rest)) :
+    readMetaBlockFull w' window' large off2 s (BV.MetaBlock.headerBits false len ++ tail) = some (s', false, off2 + n, rest) := by
+  have := read_header_prefixed_any_offset w' window' large len h1 h2 tail off off2 s s' rest (off + n) h
+  rw [show off + n - off = n by omega] at this
+  exact this
 
 /-! ## why each ingredient is needed (counterexamples on the RFC semantics) -/
 
